@@ -105,8 +105,8 @@ def simulate(sanitizers, cells):
 
 
 SKELETONS_ALL = ["", " ", "X", " X", "X ", " XY ", "X Y", "\tX\n", "_X_", " _X", "_ X", "\u00e9X", " \u00c9 ", "X\u00a0", "\u2003 X ", "XYZ", "  ",
-                 "x_Y ", "\u00a0 X", "Ab_", "\u00df", "\u0085X", "__X", " __ "]
-SKELETONS_QUICK = ["", " X", " XY ", "_X_", "\u00a0 X", "\u00c9X ", "__X"]
+                 "x_Y ", "\u00a0 X", "Ab_", "\u00df", "\u0085X", "__X", " __ ", "\u01c5X", " \u01c5"]
+SKELETONS_QUICK = ["", " X", " XY ", "_X_", "\u00a0 X", "\u00c9X ", "__X", "\u01c5X"]
 
 VARIANT = {"not_empty": "NotEmptyViolated", "min": "LenCharMinViolated", "max": "LenCharMaxViolated", "pred": "PredicateViolated", "regex": "RegexViolated"}
 
